@@ -718,7 +718,7 @@ private:
         }
         if (command == "STOP") {
             metrics_.command_stop_requests_total.fetch_add(1, std::memory_order_relaxed);
-            handle_stop(client, remote_identity);
+            handle_stop(client, request, remote_identity);
             return;
         }
         if (command == "LIST") {
@@ -807,7 +807,31 @@ private:
                   std::move(log_fields));
     }
 
-    void handle_stop(NativeSocket client, const std::string& remote_identity) {
+    void handle_stop(NativeSocket client, const ParsedRequest& request, const std::string& remote_identity) {
+        std::optional<std::string> control_token;
+        {
+            std::scoped_lock lock(node_mutex_);
+            control_token = node_.config().control_token;
+        }
+        if (control_token.has_value()) {
+            const auto token_it = request.fields.find("TOKEN");
+            const bool missing = token_it == request.fields.end();
+            if (missing || !constant_time_equal(*control_token, token_it->second)) {
+                auto error = make_error("ERR_STOP_UNAUTHENTICATED",
+                                        missing ? "Control token required" : "Invalid control token",
+                                        missing ? "Provide --control-token when invoking the CLI"
+                                                : "Verify the shared secret configured on the daemon");
+                log_event(StructuredLogger::Level::Warning,
+                          "control.command.stop",
+                          {{"remote", remote_identity},
+                           {"status", "error"},
+                           {"code", error.at("CODE")},
+                           {"reason", missing ? "auth_missing" : "auth_invalid"}});
+                send_response(client, std::move(error), false);
+                return;
+            }
+        }
+
         const bool should_stop_transport = !transport_stopped_.exchange(true, std::memory_order_acq_rel);
 
         bool invoked_shutdown = false;
